@@ -111,3 +111,46 @@ func HarnessC04Context() {
 		}
 	}
 }
+
+// HarnessC04ObservedNamespaced: what a step is sent as observed state when
+// the XR's composed resources live in a namespace (the reference carries it),
+// next to a cluster-scoped one: every existing composed resource of this XR
+// is in it, under its composition resource name.
+//
+//gosym:harness
+//gosym:cover namespaced cluster-scoped
+func HarnessC04ObservedNamespaced() {
+	s := kube.New()
+	a := zzComposedObject(zzXRName+"-a", zzResNames[0], zzOwnOurs, "")
+	ns := ""
+	if zz.Bool("res0.namespaced") {
+		zz.Cover("namespaced")
+		ns = "team-a"
+		a.SetNamespace(ns)
+	} else {
+		zz.Cover("cluster-scoped")
+	}
+	s.Put(a)
+	b := zzComposedObject(zzXRName+"-b", zzResNames[1], zzOwnOurs, "")
+	s.Put(b)
+	xr := zzNewXRObject()
+	refA := map[string]any{"apiVersion": "example.org/v1", "kind": zzCDKind, "name": zzXRName + "-a"}
+	if ns != "" {
+		refA["namespace"] = ns
+	}
+	xr.Object["spec"] = map[string]any{"resourceRefs": []any{refA,
+		map[string]any{"apiVersion": "example.org/v1", "kind": zzCDKind, "name": zzXRName + "-b"}}}
+	s.Put(xr)
+	runner := &zzRunner{steps: []zzStep{{desired: []bool{true, true}, namespaces: []string{ns, ""}}}}
+	c := NewFunctionComposer(s, s, runner)
+	_, err := c.Compose(context.Background(), zzReadXR(s), CompositionRequest{Revision: zzRevision(1)})
+	zz.Assert("compose-no-error", err == nil)
+	zz.Assert("step-was-called", len(runner.calls) >= 1)
+	if len(runner.calls) == 0 {
+		return
+	}
+	obs := runner.calls[0].observed.GetResources()
+	_, okA := obs[zzResNames[0]]
+	_, okB := obs[zzResNames[1]]
+	zz.Assert("every-existing-composed-resource-is-in-the-observed-state", okA && okB)
+}
